@@ -3,6 +3,7 @@ import Driver.Core
 import Driver.Bst
 import Driver.Map
 import Driver.Chain
+import Driver.Thpool
 
 def main (args : List String) : IO UInt32 := do
   match args with
@@ -11,4 +12,6 @@ def main (args : List String) : IO UInt32 := do
   | ["bst"] => Driver.Bst.run; return 0
   | ["map"] => Driver.Map.run; return 0
   | ["chain"] | ["queue"] | ["stack"] | ["list"] => Driver.Chain.run; return 0
+  | ["thpool"] => Driver.Thpool.run; return 0
+  | ["thpool", "labels"] => Driver.Thpool.run true; return 0
   | _ => IO.eprintln "usage: lmdriver <model>"; return 2
